@@ -1,5 +1,5 @@
 #!/usr/bin/env python3
-"""keepseed.py <seed dir> <id> <detected:true|false> <detected_by> [note] -- file a confirmed seeded change under /verif/seeded/<id>/"""
+"""keepseed.py <seed dir> <id>[/n] <detected:true|false> <detected_by> [note] -- file a confirmed seeded change under /verif/seeded/<id>/ (or <id>/<n>/ for a further one)"""
 import json, os, shutil, sys
 src, pid, det, by = sys.argv[1:5]
 note = sys.argv[5] if len(sys.argv) > 5 else ''
